@@ -63,7 +63,9 @@ pub fn gen_text(rng: &mut Rng) -> String {
 }
 
 pub fn gen_timestamp(rng: &mut Rng) -> Value {
-    let secs = match rng.below(4) {
+    let secs = match rng.below(5) {
+        // far away years (0001, 1000, the i64-nanosecond horizon 1677 / 2262 and just beyond, 2300, 9999, 100000)
+        4 => *rng.pick(&[-62135596800i64, -30610224000, -9223372036, -9223372037, -9223400000, 9223372036, 9223372037, 9223400000, 10413792000, 253402300799, 3093527980800]) + if rng.chance(1, 2) { rng.range(0, 86_400 * 400) } else { 0 },
         0 => 0,
         1 => rng.range(946684800, 946684800 + 3),
         2 => rng.range(-2_000_000_000, 4_000_000_000),
